@@ -25,7 +25,8 @@ LEVEL_NOTE = ("Trusted: vf/model.py cast semantics (str->int == int(s) succeeds;
 TECHNIQUE = "runtime monitoring: sequential cast reference model + aliasing scan and mutation probe on cast_data"
 ASSUMPTIONS = ["a rule without casts inside a casting schema is judged on the original document (as implemented and not contradicted by the statement)"]
 
-STR_NODES = ["true", "FALSE", "True", "3", " 4 ", "+5", "1_0", "3.0", "abc", "", "-7", "0", "false ", "1e3", "٣"]
+STR_NODES = ["true", "FALSE", "True", "3", " 4 ", "+5", "1_0", "3.0", "abc", "", "-7", "0", "false ", "1e3", "٣",
+             "inf", "-Infinity", "1e999", "nan", "0x10", "1 2"]
 CAST_DOC = {
     "t": "true", "f": "FALSE", "i": "3", "sp": " 4 ", "pl": "+5", "us": "1_0", "fl": "3.0", "x": "abc", "e": "",
     "n": 5, "none": None, "b": True,
